@@ -139,9 +139,11 @@ int main(void)
 
 #if DIR
 	br_sslrec_out_cbc_context c0;
+	c0.seq = ND_U64();   /* memory content before init: explicit input */
 	out_cbc_init(&c0, &rec_cbcenc_vtable, key, 16, 0, mkey, ML, ML, EXPL ? NULL : iv);
 #else
 	br_sslrec_in_cbc_context c0;
+	c0.seq = ND_U64();   /* memory content before init: explicit input */
 	in_cbc_init(&c0, &toy_cbcdec_vtable, key, 16, 0, mkey, ML, ML, EXPL ? NULL : iv);
 	CHECK(cbc_check_length(&c0, RL), "record length RL is admissible");
 #endif
